@@ -487,6 +487,9 @@ func c12(w *core.World, r *core.Report) {
 	r.Rule("LOSSY", 5, "no lossy numeric conversion (narrowing, sign change, float<->integer, 64-bit integer -> float) on a value that comes from a TypedValue numeric getter, a schema number or a strconv parse, in pkg/utils, pkg/tree, pkg/datastore and the netconf package; conversions whose source is bounded on the path (frozen, reasoned exceptions per function) are listed. Decides: no silent truncation / sign flip of values and schema bounds.")
 	ruleLossy(w, r, "LOSSY")
 
+	// ---- TEXT-VERBATIM
+	ruleTextVerbatim(w, r, "TEXT-VERBATIM")
+
 	// ---- JSON-NUMBER
 	r.Rule("JSON-NUMBER", 0, "a number taken out of decoded JSON as a float64 (type assertion / type switch on an 'any' value) is not rendered back into text (strconv.FormatFloat, fmt.Sprint*): encoding/json decodes every number into a float64 unless the decoder was told UseNumber(), so 64-bit integers above 2^53 and 18-digit decimal64 values are rounded on the way. Frozen exceptions per function.")
 	for _, f := range w.RepoFns {
@@ -933,4 +936,100 @@ func ruleLossy(w *core.World, r *core.Report, ruleName string) {
 	// ---- DECIMAL-SIGN
 	r.Rule("DECIMAL-SIGN", 1, "rendering of decimal64: wherever an integer formatter (strconv.FormatInt, fmt.Sprintf, ...) receives a value that depends on Decimal64.Digits, it receives the whole number (no integer division / remainder in between) or the function tests the sign of Digits itself. A renderer that formats digits/10^p and |digits%10^p| separately drops the sign of every value in (-1,0). Structural necessary condition only; the digits themselves are not checked.")
 	ruleDecimalSign(w, r, "DECIMAL-SIGN")
+}
+
+// ruleTextVerbatim (shared by C12 and C15): a YANG string is stored as it was written. Whitespace and letter case
+// are part of a string value (a description, a banner, a password), so the result of a strings.TrimSpace / Trim* /
+// ToLower / ToUpper / Title call must not become the string variant of a TypedValue: neither by a store to
+// TypedValue_StringVal.StringVal in the same function nor by being handed to a repository function whose parameter
+// reaches such a store (summary over static calls, any depth). A trim in a dispatcher (ConvertToTypedValue) that is
+// right for the numeric converters it also feeds is seen because the string converter is among the callees.
+func ruleTextVerbatim(w *core.World, r *core.Report, ruleName string) {
+	r.Rule(ruleName, 8, "(shared by C12 and C15) a YANG string is stored as written: the result of strings.TrimSpace / Trim / TrimLeft / TrimRight / TrimFunc / ToLower / ToUpper / ToTitle / Title is neither stored into the string variant of a TypedValue (TypedValue_StringVal.StringVal) nor handed to a repository function whose parameter reaches such a store (parameter summaries over static calls, any depth). Blanks and case belong to a string value; the per-type converters of numbers, booleans and identities may normalise their own text. Necessary for C15 as well: only the intended side of the deviation comparison goes through the converters.")
+	lossy := []string{"strings.TrimSpace", "strings.Trim", "strings.TrimLeft", "strings.TrimRight", "strings.TrimFunc", "strings.ToLower", "strings.ToUpper", "strings.ToTitle", "strings.Title"}
+	const field = "github.com/sdcio/sdc-protos/sdcpb.TypedValue_StringVal" + ".StringVal"
+	type pk struct {
+		f *ssa.Function
+		i int
+	}
+	memo := map[pk]int{} // 1 = in progress / no, 2 = yes
+	var reach func(g *ssa.Function, i int) bool
+	reach = func(g *ssa.Function, i int) bool {
+		if g == nil || g.Blocks == nil || i >= len(g.Params) || !strings.HasPrefix(core.PkgPath(g), core.Module) {
+			return false
+		}
+		k := pk{g, i}
+		if m, ok := memo[k]; ok {
+			return m == 2
+		}
+		memo[k] = 1
+		p := g.Params[i]
+		yes := false
+		core.WithoutInlining(func() {
+			for _, st := range core.StoresToField(g, field) {
+				if core.HasOrigin(st.Val, p) {
+					yes = true
+				}
+			}
+			for _, c := range core.OwnCalls(g) {
+				h := c.Common().StaticCallee()
+				if h == nil || yes {
+					continue
+				}
+				for j, a := range c.Common().Args {
+					if core.HasOrigin(a, p) && reach(h, j) {
+						yes = true
+						break
+					}
+				}
+			}
+		})
+		if yes {
+			memo[k] = 2
+		}
+		return yes
+	}
+	nSrc := 0
+	for _, f := range w.RepoFns {
+		if f.Pkg == nil || strings.Contains(core.PkgPath(f), "/mocks/") || !strings.HasPrefix(core.PkgPath(f), core.Module+"/pkg/") {
+			continue
+		}
+		core.WithoutInlining(func() {
+			ord := map[string]int{}
+			for _, c := range core.OwnCallsTo(f, lossy...) {
+				v := c.Value()
+				if v == nil {
+					continue
+				}
+				nSrc++
+				name := core.CalleeKey(c)
+				ord[name]++
+				site := core.Site(f, "result of %s #%d is not a string value", name, ord[name])
+				via := ""
+				for _, st := range core.StoresToField(f, field) {
+					if core.HasOrigin(st.Val, v) {
+						via = "stored into TypedValue_StringVal.StringVal at " + w.InstrPos(st)
+					}
+				}
+				for _, c2 := range core.OwnCalls(f) {
+					h := c2.Common().StaticCallee()
+					if h == nil || via != "" {
+						continue
+					}
+					for j, a := range c2.Common().Args {
+						if core.HasOrigin(a, v) && reach(h, j) {
+							via = "handed to " + core.FuncKey(h) + ", which stores that parameter as the string variant of a TypedValue"
+							break
+						}
+					}
+				}
+				if via == "" {
+					r.OK(ruleName, site, w.InstrPos(c), "")
+					continue
+				}
+				r.Viol(ruleName, site, w.InstrPos(c), "trimmed / case-folded text becomes the value of a YANG string ("+via+"): leading or trailing blanks (or the case) of the value are lost on this conversion path, and a comparison with the same value that came another way (running vs. intended) no longer sees what is stored")
+			}
+		})
+	}
+	r.Extra["text_normalising_calls"] = nSrc
 }
